@@ -17,6 +17,7 @@ import (
 	"github.com/pion/transport/v3/udp"
 	"golang.org/x/net/ipv4"
 	"verif/harness/common"
+	"verif/harness/vsched"
 )
 
 func init() { common.RegisterFlags() }
@@ -36,6 +37,7 @@ type fakeConn struct {
 	bwake   chan struct{}
 	calls   []int // number of datagrams returned by each ReadBatch call
 	onClose func()
+	s       *vsched.Sched
 }
 
 // Read, Write and RemoteAddr exist only because ipv4.NewPacketConn asserts net.Conn.
@@ -103,6 +105,9 @@ func (f *fakeConn) Close() error {
 	}
 	if f.onClose != nil {
 		f.onClose()
+	}
+	if f.s != nil {
+		f.s.Record(f.s.CurID(), "E", "socket closed", 0)
 	}
 	f.closed = true
 	close(f.in)
